@@ -17,9 +17,14 @@ Inductive gtarget := TSame (g : nat) | TOther (g : nat) | TJunk.
 (* self (tag, in the main tree), argument, outcome (0 = returned, else exception code), returned nodes *)
 Record gobs := GO { g_self : nat; g_arg : gtarget; g_code : nat; g_path : list nat }.
 
+(* BinaryNode: per node its tag, the two slots as node.children shows them, is_leaf, and optionally
+   one inherited query: diameter (outcome code, value) or siblings (None = an empty slot came back) *)
+Inductive bext := XNone | XDiam (code value : nat) | XSibs (l : list (option nat)).
+Record bobs := BO { b_self : nat; b_slots : list (option nat); b_isleaf : bool; b_ext : bext }.
+
 Inductive dcase :=
 | DC (t : tree) (other : option tree) (nodes : list nobs) (gotos : list gobs)
-| DB (nodes : list (list (option nat) * bool)).       (* BinaryNode: the two slots, observed is_leaf *)
+| DB (b : btree) (nodes : list bobs).
 
 Definition tag_at (t : tree) (p : pos) : option nat :=
   match subtree_at t p with Some s => ttag s | None => None end.
@@ -79,9 +84,40 @@ Definition or_flags (l : list nat) : nat :=
   let has b := existsb (fun f => Nat.eqb (Nat.land f b) b) l in
   flag (has 1) 1 + flag (has 2) 2 + flag (has 4) 4.
 
-Definition check_bin (o : list (option nat) * bool) : nat :=
-  flag (negb (Bool.eqb (binary_is_leaf (fst o)) (snd o))) F_DISAGREE
-  + flag (negb (prop_C12_binary_leaf (fst o) (snd o))) F_PROPFAIL.
+(* the tree a BinaryNode tree stands for: the occupied slots are the children *)
+Fixpoint bt_to_rose (b : btree) : tree :=
+  match b with
+  | BT g l r =>
+      T (Some g) [] []
+        ((match l with Some x => [bt_to_rose x] | None => [] end)
+         ++ (match r with Some x => [bt_to_rose x] | None => [] end))
+  end.
+
+Definition oid_eqb := opt_eqb Nat.eqb.
+
+Definition check_bin (root : btree) (o : bobs) : nat :=
+  let t := bt_to_rose root in
+  let p := pos_of_tag t (b_self o) in
+  match bt_find root (b_self o) with
+  | None => F_DISAGREE
+  | Some node =>
+      let links_ok := list_eqb oid_eqb (map (option_map bt_tag) (bt_children node)) (b_slots o) in
+      let '(agree, holds) :=
+        match b_ext o with
+        | XNone => (true, true)
+        | XDiam code value =>
+            (match bt_diameter node with
+             | Ret v => Nat.eqb code 0 && Nat.eqb value v
+             | Raise e => Nat.eqb code (exn_code e)
+             end,
+             prop_C12_binary_diameter t p code value)
+        | XSibs l =>
+            (list_eqb oid_eqb l (bt_siblings root (b_self o)),
+             prop_C12_binary_siblings t p (map (option_map (pos_of_tag t)) l))
+        end in
+      flag (negb (links_ok && Bool.eqb (binary_is_leaf (b_slots o)) (b_isleaf o) && agree)) F_DISAGREE
+      + flag (negb (prop_C12_binary_leaf (b_slots o) (b_isleaf o) && holds)) F_PROPFAIL
+  end.
 
 Definition check_C12 (c : dcase) : nat :=
   match c with
@@ -90,5 +126,5 @@ Definition check_C12 (c : dcase) : nat :=
       let complete := lpos_eq (map (fun o => pos_of_tag t (n_self o)) nodes) (positions t) in
       or_flags (flag (negb complete) F_DISAGREE
                 :: map (check_node t) nodes ++ map (check_goto t other) gotos)
-  | DB nodes => or_flags (map check_bin nodes)
+  | DB root nodes => or_flags (map (check_bin root) nodes)
   end.
